@@ -225,7 +225,7 @@ fn block_comment_text(rng: &mut Rng, nl: &str, allow_multiline: bool) -> String 
     }
 }
 fn directive_text(rng: &mut Rng) -> String {
-    (*rng.pick(&["{$R+}", "{$r-}", "{$REGION 'abc'}", "{$ENDREGION}", "{$WARN SYMBOL_DEPRECATED OFF}", "{$define foo}", "{$I foo.inc}", "{$q+,r-}", "(*$Z4*)", "{$hints off}", "{$M 16384,1048576}"])).to_string()
+    (*rng.pick(&["{$R+}", "{$r-}", "{$REGION 'abc'}", "{$ENDREGION}", "{$WARN SYMBOL_DEPRECATED OFF}", "{$define foo}", "{$I foo.inc}", "{$q+,r-}", "(*$Z4*)", "{$hints off}", "{$M 16384,1048576}", "{$include include/defs.inc}", "{$region 'region one'}", "{$i i.inc}", "{$warn warn_symbol off}", "(*$define define_x*)"])).to_string()
 }
 
 impl Layout {
